@@ -115,6 +115,9 @@ def encode_case(case, steps):
         if not all(finite(o["xyz"]) for o in cur):
             break
         name = op[0]
+        if name == "conn":        # a pure query: no step of the model (the oracle compares the answers)
+            prev = cur
+            continue
         info = st["new"]
         new = cur[-1] if info is not None else None
         onew = "NewNone"
@@ -175,7 +178,7 @@ def encode_case(case, steps):
                 v = OR.resolve(prev, p)
                 return "None" if v is None else "(Some %s)" % vl(v)
             pre = prev[op[1]]["xyz"]
-            if name in ("attr", "attr_edit", "elem_edit") and any(v is None for x in cur[op[1]]["attrs"] for v in x[2]):
+            if name in ("attr", "attr_edit", "elem_edit", "grow") and any(v is None for x in cur[op[1]]["attrs"] for v in x[2]):
                 break
             if name == "translate":
                 p = op[2]
@@ -212,6 +215,21 @@ def encode_case(case, steps):
                 t = "(OAttrSet %s %s %s %s)" % (nat(op[1]), zlit(op[2]), zlit(op[3]), core.zlist(vals))
             elif name == "attr_edit":
                 t = "(OAttrEdit %s %s %s %s %s)" % (nat(op[1]), zlit(op[2]), zlit(op[3]), nat(op[4]), zlit(op[5]))
+            elif name == "grow":
+                i0 = infos[op[1]]
+                nv = len(pre)
+                if i0["kind"] == 0:
+                    ne, nf, ce, ca = [], [], [], []
+                elif i0["kind"] == 1:
+                    ne, nf, ce, ca = [[nv - 1, nv]], [], [], []
+                else:
+                    a, b = i0["edges"][0]
+                    k0 = len(i0["faces"])
+                    ne, nf, ce, ca = [sorted([a, nv]), sorted([b, nv])], [[a, b, nv]], [a, b, nv], [k0, k0, k0]
+                t = "(OGrow %s %s %s %s %s %s)" % (nat(op[1]), vl(op[2]), zll(ne), zll(nf), core.zlist(ce), core.zlist(ca))
+                infos[op[1]] = dict(i0, edges=i0["edges"] + ne, faces=i0["faces"] + nf,
+                                    fc=[i0["fc"][0] + ce, i0["fc"][1] + ca], nv=nv + 1)
+                dirty.add(op[1])
             elif name == "elem_edit":
                 ci = {"edges": 0, "faces": 1, "cells": 2}[op[2]]
                 el = cur[op[1]]["elems"][ci][op[3]]
@@ -282,7 +300,7 @@ def shrink(ctx, case, key):
 
 
 CREATORS = ("copy", "merge", "from_arrays", "subdiv", "border", "tree", "path", "cutgraph", "features")
-WRITERS = OR.TRANSFORMS + ("edit", "set", "attr", "attr_edit", "elem_edit")
+WRITERS = OR.TRANSFORMS + ("edit", "set", "attr", "attr_edit", "elem_edit", "grow")
 
 
 def nontrivial(case):
